@@ -230,7 +230,7 @@ pub fn dispatch(op: &str, req: &Value) -> Option<String> {
                 Ok(s) => o.push_str(&s),
                 Err(e) => {
                     let msg = e.downcast_ref::<String>().cloned().or(e.downcast_ref::<&str>().map(|s| s.to_string())).unwrap_or_default();
-                    o.push_str(&format!("{{\"panic\":{}}}", jstr(&msg[..msg.len().min(300)])));
+                    o.push_str(&format!("{{\"panic\":{}}}", jstr(&msg.chars().take(300).collect::<String>())));
                 }
             }
             o.push('}');
